@@ -212,3 +212,57 @@ def write_script(path, segs):
 if __name__ == '__main__':
     segs = gen(sys.argv[1], int(sys.argv[2]), int(sys.argv[3]))
     write_script(sys.argv[4], segs)
+
+# ---------------------------------------------------------------- C20: coroutine scripts
+
+def gen_coro_segments(nseg, seed, skip=(), prefix='coro'):
+    rnd = random.Random(seed)
+    out = []
+    bounds = [(1, 1), (0, INF), (1, 3), (2, 2), (0, 2), (1, INF)]
+    for n in range(nseg):
+        ops = []
+        exps = {}          # slot -> kind
+        insts = {}         # inst -> set of candidate slots (alive on that function at call time)
+        L = rnd.randint(6, 26)
+        tries = 0
+        while len(ops) < L and tries < 400:
+            tries += 1
+            k = rnd.choices(['cexpect', 'ccall', 'resume', 'idestroy', 'crelease'], [5, 6, 14, 2, 2])[0]
+            if k == 'cexpect':
+                free = [s for s in (1, 2, 3) if s not in exps]
+                if not free:
+                    continue
+                s = rnd.choice(free)
+                kind = rnd.choice([1, 1, 2, 2, 3, 3, 4, 5])
+                ny = rnd.randint(0, 3) if kind <= 3 else 0
+                retks = [r for r in ((1, 2, 3) if kind in (1, 2) else (1, 2)) if (kind, r) not in skip]
+                retk = rnd.choice(retks)
+                ys = [rnd.randint(1, 9) + 10 * j for j in (1, 2, 3)]
+                ythrow = rnd.randint(1, ny) if ny and rnd.random() < 0.15 else 0
+                lo, hi = rnd.choice(bounds)
+                ops.append('cexpect %d %d %d %d %d %d %d %d %d %d %d' % (s, kind, ny, retk, ys[0], ys[1], ys[2], ythrow, 100 * s + rnd.randint(0, 9), lo, hi))
+                exps[s] = kind
+            elif k == 'ccall':
+                free = [i for i in (1, 2, 3, 4) if i not in insts]
+                if not free:
+                    continue
+                i = rnd.choice(free)
+                kinds = sorted(set(exps.values())) or [1]
+                kind = rnd.choice(kinds) if rnd.random() < 0.9 else rnd.randint(1, 5)
+                ops.append('ccall %d %d' % (i, kind))
+                insts[i] = {s for s, kk in exps.items() if kk == kind}
+                if not insts[i]:
+                    del insts[i]          # rejected call: no instance
+            elif k == 'resume':
+                if insts:
+                    ops.append('resume %d' % rnd.choice(sorted(insts)))
+            elif k == 'idestroy':
+                if insts:
+                    i = rnd.choice(sorted(insts)); del insts[i]; ops.append('idestroy %d' % i)
+            elif k == 'crelease':
+                # proviso of C20: an expectation outlives the coroutines evaluating its clauses
+                cands = [s for s in exps if not any(s in c for c in insts.values())]
+                if cands:
+                    s = rnd.choice(cands); del exps[s]; ops.append('crelease %d' % s)
+        out.append(('%s-%d-%d' % (prefix, seed, n), ops))
+    return out
